@@ -12,6 +12,7 @@ import (
 	"github.com/wmnsk/go-pfcp/message"
 	"pgregory.net/rapid"
 
+	"github.com/free5gc/go-upf/internal/pfcp"
 	"github.com/free5gc/go-upf/internal/verif/stack"
 	"github.com/free5gc/go-upf/internal/verif/vcore"
 )
@@ -51,6 +52,19 @@ type out struct {
 	retries int
 	side    int // 0: sent before the counter crossed a boundary, 1: after
 	retired bool
+	unreach bool // sent to the node whose Node ID cannot be reached: no datagram arrives anywhere
+}
+
+const unreachID = "203.0.113.9"
+
+func reachable(l []*out) []*out {
+	var o []*out
+	for _, x := range l {
+		if !x.unreach {
+			o = append(o, x)
+		}
+	}
+	return o
 }
 
 type stats struct {
@@ -59,11 +73,14 @@ type stats struct {
 	reports, expiries, responses int
 	peerReqs                     int
 	peerReqExpired               bool
+	unreach                      int // requests whose first transmission failed locally
 }
 
 func run(c Case) (v *vcore.Violation, stt stats) {
 	d := stack.NewModelDriver()
-	st, err := stack.New(stack.Opts{Driver: d, Nodes: 2, MaxRetrans: c.MaxRetrans})
+	// node 2 names itself by an address the UPF cannot send to from its loopback socket (TEST-NET-3): the first transmission
+	// of every request to it fails locally, the request is outstanding all the same
+	st, err := stack.New(stack.Opts{Driver: d, Nodes: 3, MaxRetrans: c.MaxRetrans, NodeIDs: map[int]string{2: unreachID}})
 	if err != nil {
 		panic(fmt.Sprintf("infrastructure: %v", err))
 	}
@@ -84,6 +101,8 @@ func run(c Case) (v *vcore.Violation, stt stats) {
 		{Kind: "est", Peer: 0, Node: 0, Sess: -1, CP: 0x21, Rules: []stack.RuleOp{urr, pdr}},
 		{Kind: "est", Peer: 0, Node: 0, Sess: -1, CP: 0x22, Rules: []stack.RuleOp{urr, pdr}},
 		{Kind: "est", Peer: 1, Node: 1, Sess: -1, CP: 0x21, Rules: []stack.RuleOp{urr, pdr}},
+		{Kind: "assoc", Peer: 2, Node: 2, Sess: -1},
+		{Kind: "est", Peer: 2, Node: 2, Sess: -1, CP: 0x21, Rules: []stack.RuleOp{urr, pdr}},
 	} {
 		if o := r.Step(op); o.Dead != nil {
 			return vcore.Violatef(o.Dead.Key, "prefix: UPF fatal exit"), stt
@@ -107,9 +126,15 @@ func run(c Case) (v *vcore.Violation, stt stats) {
 		return l
 	}
 	// txKey finds the server's key for an outstanding request by its cached bytes
+	addrOf := func(o *out) string {
+		if o.unreach {
+			return unreachID + ":8805"
+		}
+		return st.Sock(o.sock).Addr.String()
+	}
 	txKey := func(o *out) (string, bool) {
 		for id, e := range st.Srv.VerifTxTable() {
-			if bytes.Equal(e.Bytes, o.b) && e.Addr == st.Sock(o.sock).Addr.String() {
+			if bytes.Equal(e.Bytes, o.b) && e.Addr == addrOf(o) {
 				return id, true
 			}
 		}
@@ -132,6 +157,52 @@ func run(c Case) (v *vcore.Violation, stt stats) {
 				return vcore.Violatef(o.Dead.Key, "event %d: UPF fatal exit: %.400s", i, o.Dead.Msg), stt
 			}
 			node := r.Sess[sess].Node
+			if node == 2 {
+				// nothing can arrive anywhere; the request is outstanding all the same, under a number of its own
+				if len(o.SRRs) != 0 {
+					return vcore.Violatef("srr-misdirected", "event %d: a report for a session of the node named %s produced a Session Report Request at socket %d", i, unreachID, o.SRRs[0].Sock), stt
+				}
+				var fresh []pfcp.VerifTx
+				for _, e := range st.Srv.VerifTxTable() {
+					if e.Addr != unreachID+":8805" {
+						continue
+					}
+					known := false
+					for _, x := range live() {
+						if x.unreach && bytes.Equal(x.b, e.Bytes) {
+							known = true
+						}
+					}
+					if !known {
+						fresh = append(fresh, e)
+					}
+				}
+				nUn := 0
+				for _, x := range live() {
+					if x.unreach {
+						nUn++
+					}
+				}
+				have := 0
+				for _, e := range st.Srv.VerifTxTable() {
+					if e.Addr == unreachID+":8805" {
+						have++
+					}
+				}
+				if len(fresh) != 1 || have != nUn+1 {
+					return vcore.Violatef("lost-bookkeeping", "event %d: a request whose first transmission failed (peer %s): the transmit table holds %d request(s) to that peer, %d were outstanding before and one was added (new entries: %d)", i, unreachID, have, nUn, len(fresh)), stt
+				}
+				seq := fresh[0].Seq & 0xffffff
+				for _, x := range live() {
+					if x.seq == seq {
+						return vcore.Violatef("seq-collision", "event %d: sequence number %d given to a request to %s while a request with it is still outstanding (to %s)", i, seq, unreachID, addrOf(x)), stt
+					}
+				}
+				sentCount++
+				outstanding = append(outstanding, &out{sock: 2, unreach: true, seq: seq, b: fresh[0].Bytes})
+				stt.unreach++
+				continue
+			}
 			if len(o.SRRs) != 1 || o.SRRs[0].Sock != node {
 				return vcore.Violatef("srr-count", "event %d: report for session %d produced %d Session Report Requests (want 1 at node %d)", i, sess, len(o.SRRs), node), stt
 			}
@@ -140,8 +211,8 @@ func run(c Case) (v *vcore.Violation, stt stats) {
 				return vcore.Violatef("srr-seid", "event %d: Session Report Request header SEID %#x want CP SEID %#x", i, srr.SEID, r.Sess[sess].CP), stt
 			}
 			for _, x := range live() {
-				if x.sock == srr.Sock && x.seq == srr.Seq {
-					return vcore.Violatef("seq-collision", "event %d: sequence number %d reused while a request with it is still outstanding to the same peer", i, srr.Seq), stt
+				if x.seq == srr.Seq {
+					return vcore.Violatef("seq-collision", "event %d: sequence number %d given to a request to sock %d while a request with it is still outstanding (to %s)", i, srr.Seq, srr.Sock, addrOf(x)), stt
 				}
 			}
 			// position relative to a counter boundary
@@ -174,7 +245,7 @@ func run(c Case) (v *vcore.Violation, stt stats) {
 			id, ok := txKey(x)
 			if !ok {
 				for _, e := range st.Srv.VerifTxTable() {
-					if e.Addr == st.Sock(x.sock).Addr.String() && e.Seq&0xffffff == x.seq {
+					if e.Addr == addrOf(x) && e.Seq&0xffffff == x.seq {
 						return vcore.Violatef("retrans-differs", "event %d: the bytes kept for retransmitting request seq %d (%x) differ from the datagram that was sent (%x)", i, x.seq, e.Bytes, x.b), stt
 					}
 				}
@@ -192,7 +263,15 @@ func run(c Case) (v *vcore.Violation, stt stats) {
 			for _, ds := range o.Rx {
 				total += len(ds)
 			}
-			if x.retries < int(c.MaxRetrans) {
+			if x.unreach && x.retries < int(c.MaxRetrans) {
+				if total != 0 {
+					return vcore.Violatef("retrans-count", "event %d: expiry of a request to %s produced %d datagram(s) at the peers' sockets", i, unreachID, total), stt
+				}
+				x.retries++
+				if _, ok := txKey(x); !ok {
+					return vcore.Violatef("lost-bookkeeping", "event %d: request dropped before the last retry", i), stt
+				}
+			} else if x.retries < int(c.MaxRetrans) {
 				if total != 1 || len(o.Rx[x.sock]) != 1 {
 					return vcore.Violatef("retrans-count", "event %d: expiry %d of request seq %d (max %d) produced %d datagrams, want one retransmission", i, x.retries+1, x.seq, c.MaxRetrans, total), stt
 				}
@@ -218,7 +297,7 @@ func run(c Case) (v *vcore.Violation, stt stats) {
 			// the peer's own request with the sequence number of a request outstanding to it: receive transactions are kept
 			// under the same "<address>-<sequence number>" form of key, in a table of their own.  Receiving it, and (variant
 			// "expire") the end of its retention window, must leave the outstanding request alone.
-			l := live()
+			l := reachable(live())
 			if len(l) == 0 {
 				continue
 			}
@@ -300,7 +379,7 @@ func run(c Case) (v *vcore.Violation, stt stats) {
 				}
 			}
 		case "rsp":
-			l := live()
+			l := reachable(live())
 			if len(l) == 0 {
 				continue
 			}
@@ -377,7 +456,7 @@ func run(c Case) (v *vcore.Violation, stt stats) {
 			id, ok := txKey(x)
 			if !ok {
 				for _, e := range st.Srv.VerifTxTable() {
-					if e.Addr == st.Sock(x.sock).Addr.String() && e.Seq&0xffffff == x.seq {
+					if e.Addr == addrOf(x) && e.Seq&0xffffff == x.seq {
 						return vcore.Violatef("retrans-differs", "final: the bytes kept for retransmitting request seq %d (%x) differ from the datagram that was sent (%x)", x.seq, e.Bytes, x.b), stt
 					}
 				}
@@ -413,6 +492,9 @@ func account(c Case, s stats) {
 	}
 	if s.retiredAfterRetry {
 		vcore.E.Class("retired_by_response_after_retry")
+	}
+	if s.unreach > 0 {
+		vcore.E.Class("request_whose_first_transmission_failed")
 	}
 	if s.peerReqs > 0 {
 		vcore.E.Class("peer_request_with_the_sequence_number_of_an_outstanding_request")
@@ -487,7 +569,7 @@ func TestC09(t *testing.T) {
 		n := rapid.IntRange(1, 25).Draw(rt, "n")
 		for i := 0; i < n; i++ {
 			k := rapid.SampledFrom([]string{"report", "report", "report", "dldr", "expire", "expire", "expire", "expire_unknown", "rsp", "rsp", "peerreq"}).Draw(rt, "kind")
-			ev := Ev{Kind: k, Sess: rapid.IntRange(0, 2).Draw(rt, "sess"), Which: rapid.IntRange(0, 7).Draw(rt, "which")}
+			ev := Ev{Kind: k, Sess: rapid.SampledFrom([]int{0, 1, 2, 3, 3}).Draw(rt, "sess"), Which: rapid.IntRange(0, 7).Draw(rt, "which")}
 			if k == "peerreq" && rapid.Bool().Draw(rt, "expire") {
 				ev.Variant = "expire"
 			}
